@@ -5,4 +5,5 @@ def check(ctx):
     writeprops.run(ctx, "C05")
 def oracle_case(case):
     if case.get("kind") == "write-known": return writeprops.write_replay(case, "C05")
+    if case.get("kind") in ("write", "roundtrip"): return writeprops.case_replay(case, "C05")
     return []
